@@ -231,3 +231,45 @@ func VerifH_C04_bigdelta() {
 	g.Cmds = append(g.Cmds, GlyphOp{Op: OpMoveTo, Args: []float64{x0, 0}}, GlyphOp{Op: OpLineTo, Args: []float64{x1, 5}})
 	checkCompiled(g, 0, 0)
 }
+
+// VerifH_C04_flex: two consecutive curves whose tangents at the joint are horizontal, so that the encoder's
+// hflex / hflex1 edges compete with the plain curve operators; the vertical deltas are solver-chosen, which
+// covers "returns to the starting y" with and without a horizontal final tangent.
+func VerifH_C04_flex() {
+	r := int64(verifParam("flexrange", 3))
+	sy := func(tag string) float64 { return verifDyadic(tag, 0, -r, r) }
+	y0 := sy("y0")
+	a1y, b1y := sy("a1y"), sy("b1y")
+	e2y, f2y := sy("e2y"), sy("f2y")
+	x0 := verifDyadic("x0", 0, -2, 2)
+	g := &Glyph{Name: "x", Width: 0}
+	g.Cmds = append(g.Cmds,
+		GlyphOp{Op: OpMoveTo, Args: []float64{x0, y0}},
+		GlyphOp{Op: OpCurveTo, Args: []float64{x0 + 10, a1y, x0 + 20, b1y, x0 + 30, b1y}},
+		GlyphOp{Op: OpCurveTo, Args: []float64{x0 + 40, b1y, x0 + 50, e2y, x0 + 60, f2y}})
+	if verifChoose("tail", 2) == 1 {
+		g.Cmds = append(g.Cmds, GlyphOp{Op: OpLineTo, Args: []float64{x0 + 70, sy("ty")}})
+	}
+	checkCompiled(g, 0, 0)
+}
+
+// VerifH_C04_accum: runs of curves / lines whose end points are not representable in 16.16 (2^-18 grid):
+// every decoded coordinate must stay within one rounding of the requested absolute position, i.e. rounding
+// errors must be compensated and not accumulate along the path.
+func VerifH_C04_accum() {
+	n := 3 + verifChoose("n", verifParam("accumextra", 1)+1)
+	curves := verifChoose("curves", 2) == 1
+	g := &Glyph{Name: "x", Width: 0}
+	g.Cmds = append(g.Cmds, GlyphOp{Op: OpMoveTo, Args: []float64{0, 0}})
+	for i := 1; i <= n; i++ {
+		// end point: 10*i + f/2^18 with a solver-chosen fraction 0 <= f < 2^18 (x) and a fixed odd fraction (y)
+		x := float64(10*i) + verifDyadic("fx", 18, 0, 1<<18-1)
+		y := float64(3*i) + verifDyadic("fy", 18, 0, 1<<18-1)
+		if curves {
+			g.Cmds = append(g.Cmds, GlyphOp{Op: OpCurveTo, Args: []float64{float64(10*i - 7), float64(3*i - 2), float64(10*i - 3), float64(3*i - 1), x, y}})
+		} else {
+			g.Cmds = append(g.Cmds, GlyphOp{Op: OpLineTo, Args: []float64{x, y}})
+		}
+	}
+	checkCompiled(g, 0, 0)
+}
